@@ -31,7 +31,7 @@ use crate::{HttpBody, HttpRequest, HttpResponse};
 use futures_util::{FutureExt, TryFutureExt};
 use http_body_util::BodyExt;
 use hyper::body::Bytes;
-use hyper::header::{ACCEPT, CONTENT_TYPE};
+use hyper::header::{ACCEPT, CONTENT_LENGTH, CONTENT_TYPE};
 use hyper::http::HeaderValue;
 use hyper::{Method, StatusCode, Uri};
 use jsonrpsee_core::BoxError;
@@ -158,6 +158,8 @@ where
 				// Requests must have the following headers:
 				req.headers_mut().insert(CONTENT_TYPE, HeaderValue::from_static("application/json"));
 				req.headers_mut().insert(ACCEPT, HeaderValue::from_static("application/json"));
+				// The body is replaced below: what the GET request said about its own body no longer applies.
+				req.headers_mut().remove(CONTENT_LENGTH);
 
 				// Adjust the body to reflect the method call.
 				let bytes =
